@@ -106,7 +106,127 @@ def plan(tier, seed):
         elif i % 4 == 2:
             c['single'] = True
         cases.append(c)
+    cases += [{'regvar': i} for i in range(60 if tier == 'quick' else 1500)]
     return cases
+
+
+# ---------------------------------------------------------------------------
+# register symbols: "Just like other symbols, they may be defined or re-defined with EQU or SET", "register symbols are local to sections"
+
+REG_TARGETS = {
+    # cpu -> (register names with their numbers, statement that carries a register, encoder of that statement, big-endian words)
+    'atmega8': ([('r%d' % n, n) for n in range(32)], 'mov\tr0,%s', lambda n: 0x2C00 | ((n & 0x10) << 5) | (n & 0x0F), False),
+    '68000': ([('d%d' % n, n) for n in range(8)] + [('a%d' % n, 8 + n) for n in range(7)], 'move.l\t%s,d0', lambda n: 0x2000 | n, True),
+}
+
+
+def run_regvar(case, ctx):
+    out = ctx.out
+    rng = ctx.rng
+    cpu = sorted(REG_TARGETS)[case['regvar'] % 2]
+    regs, stmt, enc, be = REG_TARGETS[cpu]
+    cs = rng.random() < 0.3
+    names = ['acc', 'Ptr', 'tmp_reg'][:rng.randrange(1, 4)]
+    spell = (lambda n: n) if cs else (lambda n: rng.choice([n, n.upper(), n.lower()]))
+    lines = ['\tcpu\t%s' % cpu]
+    expect = []              # words the code file must hold, in order
+    scopes = [{}]            # innermost last: name -> ('var'|'const', register number)
+    outer_used = [set()]     # names a section has read from an enclosing scope (assigning them there afterwards would make the earlier read depend on the pass)
+    fault = None
+    want_fault = rng.random() < 0.15
+    nst = rng.randrange(4, 30)
+    for i in range(nst):
+        k = rng.random()
+        nm = rng.choice(names)
+        visible = next((sc[nm] for sc in reversed(scopes) if nm in sc), None)
+        if k < 0.35 or visible is None:
+            own = scopes[-1].get(nm)
+            if own and own[0] == 'const':
+                continue
+            if own is None and nm in outer_used[-1]:
+                continue
+            rname, rnum = rng.choice(regs)
+            how = rng.choice(['set', ':=', 'set', 'eval'] if cpu == '68000' else ['set', ':=', 'set'])
+            src = rname
+            if rng.random() < 0.2:
+                other = [(n2, v) for sc in scopes for n2, v in sc.items() if n2 != nm]
+                vis_other = [(n2, next(sc[n2] for sc in reversed(scopes) if n2 in sc)) for n2 in set(n for n, _ in other)]
+                if vis_other:
+                    n2, v2 = rng.choice(sorted(vis_other))
+                    src, rnum = spell(n2), v2[1]          # "Simple assignments are however possible"
+                    if n2 not in scopes[-1]:
+                        outer_used[-1].add(n2)
+            lines.append('%s\t%s\t%s' % (spell(nm), how, src))
+            scopes[-1][nm] = ('var', rnum)
+        elif k < 0.75:
+            lines.append('\t' + stmt % spell(nm))
+            expect.append(enc(visible[1]))
+            if nm not in scopes[-1]:
+                outer_used[-1].add(nm)
+        elif k < 0.83 and len(scopes) == 1:
+            lines.append('\tsection\tsc%d' % i)
+            scopes.append({})
+            outer_used.append(set())
+        elif k < 0.9 and len(scopes) > 1:
+            lines.append('\tendsection')
+            scopes.pop()
+            outer_used.pop()
+        elif k < 0.95 and len(scopes) > 1 and nm in scopes[0]:
+            lines.append('\t' + stmt % (spell(nm) + '[]'))
+            expect.append(enc(scopes[0][nm][1]))
+        elif want_fault and fault is None:
+            # a register alias that is a constant cannot be assigned to
+            cn = 'kreg%d' % i
+            rname, rnum = rng.choice(regs)
+            lines.append('%s\t%s\t%s' % (cn, rng.choice(['equ', 'reg']), rname))
+            lines.append('\t' + stmt % cn)
+            expect.append(enc(rnum))
+            lines.append('%s\tset\t%s' % (cn, rng.choice(regs)[0]))
+            fault = len(lines)
+    while len(scopes) > 1:
+        lines.append('\tendsection')
+        scopes.pop()
+    text = '\n'.join(lines) + '\n'
+    ctx.write('g.asm', text)
+    a = asl.assemble(ctx, 'g.asm', ['-U'] if cs else [], trace=True)
+    tag = 'register variables #%d (%s%s)' % (ctx.idx, cpu, ' -U' if cs else '')
+    out.sample = {'regvar': cpu, 'fault': fault, 'source_head': lines[:14]}
+    if a.run.timed_out:
+        out.inconc('timeout')
+        return
+    if a.run.san:
+        out.violate(a.run.san, '%s: %s' % (tag, a.run.err.decode('latin-1')[-800:]))
+        return
+    shown = text.replace('\n', ' | ')
+    errs = [e for e in (a.trace or []) if e['k'] == 'D' and e.get('class') in ('E', 'F')]
+    out.nontrivial = len(expect) > 1
+    out.sig = ('regvar', cpu, cs, min(len(expect), 8), fault is not None, len([l for l in lines if 'section' in l]) > 0)
+    out.obs['register_variable_programs'] += 1
+    if fault is not None:
+        lns = set()
+        for e in errs:
+            m = _POS_RE.search(e.get('pos', ''))
+            lns.add(int(m.group(1)) if m else None)
+        if a.rc == 0:
+            out.violate('accepted:regvar:assignment-to-constant-register-alias', '%s: line %d assigns to a register alias defined with EQU/REG and was accepted | %s' % (tag, fault, shown))
+        elif lns != {fault}:
+            out.violate('rejected:regvar:other-line', '%s: only line %d is wrong, errors reported for lines %s | %s' % (tag, fault, sorted(lns, key=str), shown))
+        else:
+            out.obs['register_constant_assignments_refused'] += 1
+        return
+    if a.rc != 0 or a.p is None:
+        first = errs[0] if errs else {}
+        out.violate('rejected:%s@regvar' % first.get('num', '?'), '%s: a program inside the documented rules was refused (status %s, first error %s at %s) | %s'
+                    % (tag, a.rc, first.get('num'), first.get('pos'), shown))
+        return
+    data = b''.join(r.data for r in pfile.parse(a.p) if r.kind == 'data')
+    got = [int.from_bytes(data[i:i + 2], 'big' if be else 'little') for i in range(0, len(data), 2)]
+    if got != expect:
+        j = next((i for i, (x, y) in enumerate(zip(got, expect)) if x != y), min(len(got), len(expect)))
+        out.violate('regvar:wrong-register-read', '%s: statement %d that names a register variable assembled to %s, the value assigned last in its scope gives %s | %s'
+                    % (tag, j, '$%04x' % got[j] if j < len(got) else 'nothing', '$%04x' % expect[j] if j < len(expect) else 'nothing', shown))
+        return
+    out.obs['register_variable_reads_checked'] += len(expect)
 
 
 # ---------------------------------------------------------------------------
@@ -950,6 +1070,8 @@ def read_words(recs, be):
 
 
 def run_case(case, ctx):
+    if 'regvar' in case:
+        return run_regvar(case, ctx)
     out = ctx.out
     rng = ctx.rng
     cs, cpu = case['cs'], case['cpu']
